@@ -14,7 +14,7 @@ THEOREMS = ['WV.C19.corr2_outer_eq', 'WV.C19.outerRev_eq', 'WV.C19.rows_corr_get
             'WV.C19X.sfb2d_nonsep_ext_eq_SFB2D',
             'WV.C19P.xpPer_sep', 'WV.C19P.band_eq_per', 'WV.C19P.afb2d_nonsep_per_eq_sep', 'WV.C19P.afb2d_nonsep_per_eq_AFB2D',
             'WV.C19Q.convT2Full_outer_sep', 'WV.C19Q.postQ_eq', 'WV.C19Q.sfb2d_nonsep_per_eq_sep', 'WV.C19Q.sfb2d_nonsep_per_eq_SFB2D',
-            'WV.C19Z.afb2dNonsepCh_per_gen', 'WV.C19Z.sfb2dNonsepCh_per_gen', 'WV.C19Z.nonsep_pads']
+            'WV.C19Z.afb2dNonsepCh_per_gen', 'WV.C19Z.sfb2dNonsepCh_per_gen', 'WV.C19Z.nonsep_pads', 'WV.C19Z.rollPy_gen', 'WV.C19Z.prep_mirrors_gen']
 OPS = ['afb2d_nonsep', 'sfb2d_nonsep', 'afb2d', 'sfb2d']
 MODES4 = [0, 1, 4, 2]
 
